@@ -115,6 +115,28 @@ let f _id vs =
           | _ -> failwith "presented entry") (as_list presented)) in
       check (fi @ fp)
     with Seal_miss -> "DIFF seal-table-miss: the model sealed a (nonce, plaintext) pair the driver did not, i.e. serializer or nonce handling differ")
+  | [I "6"; cfg; table; nonce; data; tok; dok; dec] ->
+    let e = encoder_of_cfg (as_int cfg) in
+    let tbl = List.map (fun v -> match as_list v with
+        | [n; p; s] -> (as_bytes n, as_bytes p, as_bytes s)
+        | _ -> failwith "table entry") (as_list table) in
+    let seal n m =
+      let n' = coq_to_bytes n and m' = coq_to_bytes m in
+      match List.find_opt (fun (a, b, _) -> a = n' && b = m') tbl with
+      | Some (_, _, s) -> bytes_to_coq s
+      | None -> raise Seal_miss in
+    let aopen n c =
+      let n' = coq_to_bytes n and c' = coq_to_bytes c in
+      match List.find_opt (fun (a, _, s) -> a = n' && s = c') tbl with
+      | Some (_, p, _) -> Some (bytes_to_coq p)
+      | None -> None in
+    (try
+      let m_tok = enc_encode seal e (as_cbytes nonce) (as_cbytes data) in
+      check [
+        ("Encode", false, hx m_tok, hs (as_bytes tok));
+        ("Decode(Encode)", true, opt_bytes (enc_decode aopen e m_tok), impl_opt dok dec);
+      ]
+    with Seal_miss -> "DIFF seal-table-miss: the model sealed a (nonce, plaintext) pair the driver did not")
   | _ -> "DIFF malformed-record"
 
 let () = run_oracle f
